@@ -1155,3 +1155,33 @@ theorem early_link_witness :
   decide
 
 end Pharmpy.C16
+
+namespace Pharmpy.C16
+
+/-! ### The key must identify the entry
+
+  The database protocol is faithful only for entries with different keys: a
+  store under a key whose model file exists writes nothing (`store_model`'s
+  early return), so `ModelHash` has to separate models that differ in their
+  data values, code or datainfo (hashing itself: C12). -/
+
+/-- `store_model` of any model whose key already has a model file issues no
+    operation at all — whatever its dataset. -/
+theorem storeModel_early_return (m : MDesc) (fs : FS) (h : isFile fs (modelPath m.key m.ext) = true) :
+    storeModel m fs = ([], .ok ()) := by
+  simp [storeModel, h]
+
+/-- Hence two entries that differ only in their data but share a key are not
+    both retrievable: the second store "succeeds" and the reader obtains the
+    first entry's dataset (while with different keys both come back, see the
+    non-vacuity example above). -/
+theorem key_collision_witness :
+    let mA : MDesc := wM1
+    let mC : MDesc := { wM1 with dh := "H2" }
+    let fs1 := runW [] [.init, .dbStoreEntry mA]
+    (dbStoreEntry mC fs1).2 = .ok () ∧
+    (dbRetrieve "K1" (applyAll fs1 (dbStoreEntry mC fs1).1)).2 = .ok mA.entry ∧
+    mA.entry ≠ mC.entry := by
+  decide
+
+end Pharmpy.C16
